@@ -141,10 +141,8 @@ func GenCfg(rt *rapid.T, pr Profile) *Cfg {
 	}
 	c.DeadSB = c.N > 2 && rapid.IntRange(0, 5).Draw(rt, "deadSB") == 0
 	c.BB = pickI64(rt, "bb", 1, 2, 5, 10, 20, 100)
-	c.SB = pickI64(rt, "sb", 0, c.BB/2, c.BB/2, c.BB/2, c.BB, 1)
-	if c.SB > c.BB {
-		c.SB = c.BB
-	}
+	// any sizes are accepted; the usual half big blind is the most frequent
+	c.SB = pickI64(rt, "sb", 0, c.BB/2, c.BB/2, c.BB/2, c.BB/2, c.BB, 1, c.BB-1, c.BB/2+1, c.BB+1, 2*c.BB)
 	c.DB = pickI64(rt, "db", 0, 0, 0, 0, 0, c.BB, 2*c.BB, 1)
 	c.Ante = pickI64(rt, "ante", 0, 0, 0, 0, 1, c.BB/10, c.BB/2, c.BB, 3*c.BB)
 	c.Limit = "no"
